@@ -357,7 +357,7 @@ def referenced_names(stmts) -> dict[str, int]:
             walk(s[3])
         elif s[0] == "latch":
             walk(s[2]); walk(s[3]); walk(s[4])
-        elif s[0] == "enable":
+        elif s[0] in ("enable", "assign"):
             walk(s[2])
         elif s[0] == "expr":
             walk(s[1])
